@@ -574,6 +574,7 @@ class Unit:
         fl, helpers = j["functions"], set()
         if not os.environ.get("VERIF_NO_FLATTEN"):
             from . import flatten
+            flatten.desugar_struct_assign(j["functions"], self.types, self.records)
             fl, helpers = flatten.flatten_unit(j["functions"], self.types, j["globals"])
         self.functions = [Fn(f, self) for f in fl]
         self.transparent = helpers  # private helpers no rule knows by name: expanded in their callers (sa/flatten.py)
